@@ -57,3 +57,58 @@ func (g *Ring) Add(r *Run, c *Case, eval func() string, digest, describe string)
 		r.Violation(c, "result-changes-on-re-evaluation:"+g.name, fmt.Sprintf("the same input gave another result when presented again later\ninput: %s\nfirst:  %s\nagain:  %s", trunc(pick.describe, 600), trunc(pick.digest, 600), trunc(again, 600)), pick.describe)
 	}
 }
+
+// Stress evaluates every remembered input again from several goroutines at once: deterministic functions give the
+// results they gave alone. (Unsynchronised package-level state — memo tables, pools, shared slices — shows as a
+// differing result here, or ends the process with the runtime's "concurrent map" fatal error, which the isolated
+// parent reports.)
+func (g *Ring) Stress(r *Run, c *Case, workers, rounds int) {
+	g.mu.Lock()
+	items := append([]ringItem(nil), g.items...)
+	g.mu.Unlock()
+	if len(items) == 0 || c == nil {
+		return
+	}
+	type miss struct {
+		it    ringItem
+		again string
+	}
+	var mu sync.Mutex
+	var misses []miss
+	var wg sync.WaitGroup
+	start := make(chan struct{})
+	for w := 0; w < workers; w++ {
+		wg.Add(1)
+		go func(w int) {
+			defer wg.Done()
+			defer func() {
+				if p := recover(); p != nil {
+					mu.Lock()
+					misses = append(misses, miss{ringItem{describe: "(panic during concurrent evaluation)"}, fmt.Sprint(p)})
+					mu.Unlock()
+				}
+			}()
+			<-start
+			for k := 0; k < rounds; k++ {
+				for i := range items {
+					it := items[(i*7+w*13+k)%len(items)]
+					if again := it.eval(); again != it.digest {
+						mu.Lock()
+						misses = append(misses, miss{it, again})
+						mu.Unlock()
+						return
+					}
+				}
+			}
+		}(w)
+	}
+	close(start)
+	wg.Wait()
+	r.Eval(len(items) * workers * rounds)
+	if len(misses) > 0 {
+		m := misses[0]
+		r.Violation(c, "result-changes-under-concurrent-evaluation:"+g.name, fmt.Sprintf("%d goroutines evaluating %d earlier inputs at once: a result differs from the one obtained alone\ninput: %s\nalone:      %s\nconcurrent: %s", workers, len(items), trunc(m.it.describe, 600), trunc(m.it.digest, 600), trunc(m.again, 600)), m.it.describe)
+		return
+	}
+	r.Count(g.name+": earlier inputs re-evaluated concurrently", len(items)*workers*rounds)
+}
